@@ -8,7 +8,7 @@ extern "C" {
 #define CALL(fnname, expr) api(fnname, [&]() { return (expr); })
 #define CALLI(fnname, expr) api(fnname, [&]() { return (expr); }, A_ITER)
 #define CALLN(fnname, expr) api(fnname, [&]() { return (expr); }, A_NOENUM)
-#define SKIP(why) do { ev("skip %s: %s", opk_name(o.k), why); return; } while (0)
+#define SKIP(why) do { ev("skip %s: %s", opk_name(o.k), why); g_stats.inc(std::string("op.skipped.") + opk_name(o.k)); return; } while (0)
 
 static const std::vector<ustr> &cats() {
     static std::vector<ustr> p;
@@ -53,6 +53,7 @@ bool ApiRun::would_strand(MLoop *l, const ustr &norm) {
 // ------------------------------------------------------------------------------------------------ dispatcher
 void ApiRun::exec(const Op &o) {
     ev("op %d %s", cur_op, opk_name(o.k));
+    g_stats.inc(std::string("op.") + opk_name(o.k));        // reach: how often each op kind was attempted (see also op.skipped.*)
     bool disk_faulted = o.fault_kind >= 1 && o.fault_kind <= 6;
     if (disk_faulted) arm_faults(o);
     try {
